@@ -108,7 +108,8 @@ def eval_case(case, rng):
     if case.get("real"):
         return eval_real(case, rng)
     quic = rng.random() < 0.35
-    fl = gen.random_quic_flow(rng, napp=rng.choice([3, 8])) if quic else gen.random_tls_flow(rng, nmax=10, big=case["i"] % 6 == 2, segkinds=tcpcap.CUT_KINDS, min_records=1, perturb=rng.random() < 0.15)      # a sixth with full-size (2^14) records
+    fl = gen.random_quic_flow(rng, napp=rng.choice([3, 8])) if quic else gen.random_tls_flow(rng, nmax=10, big=case["i"] % 6 == 2, segkinds=tcpcap.CUT_KINDS, min_records=1, perturb=rng.random() < 0.15,
+                                                                                                                compress=case["i"] % 8 == 5)      # a sixth with full-size (2^14) records; an eighth (TLS <= 1.2) with DEFLATE compression: per-direction state that starts with the Finished
     items = scene.stamp(scene.merge([fl], rng, "concat"), rng, rng.choice(["plain", "plain", "zero"] + (["coarse"] if not quic else [])))
     keys = scene.keylog_text([fl], rng)
     extra, mapargs = [], None
@@ -155,9 +156,7 @@ def eval_case(case, rng):
         nontrivial = bool(qc.expect)
     else:
         conn = fl.conn
-        m = gen.check_flow_exact(an0, fl, mapargs)
-        if m:
-            return dict(out, v="inconclusive", msg="run without -a is not exact (C01 business): " + m[0], nontrivial=False)
+        m0 = gen.check_flow_exact(an0, fl, mapargs)
         for key, d in ((kc, "c"), (ks, "s")):
             p0, p1 = data_packets(an0, key), data_packets(an1, key)
             if not is_subseq(p0, p1):
@@ -172,6 +171,12 @@ def eval_case(case, rng):
             if pm:
                 msgs.append(f"{'client' if d == 'c' else 'server'} -a stream ({len(stream)}B): {pm}")
         nontrivial = len(conn.truth["c"]) + len(conn.truth["s"]) > 0
+        if m0 and msgs:
+            # neither run exports the connection as sent: C01's business, the comparison of the two runs has no footing
+            return dict(out, v="inconclusive", msg="run without -a is not exact (C01 business): " + m0[0], nontrivial=False)
+        if m0:
+            # with -a every application record is there, exactly and in order - without it they are not: the option changes which application data is exported
+            msgs.append("with -a the stream holds every application record the endpoints sent; without it: " + m0[0][:300])
     stray = [p for p in an1.pkts if (p.src, p.sport, p.dst, p.dport) not in (kc, ks) and p.payload]
     if stray:
         msgs.append("-a output contains packets of a conversation that is not the connection's")
